@@ -466,6 +466,10 @@ CHECKS["C11"]["runs"] = CHECKS["C11"]["runs"] + [dict([r for r in CHECKS["C10"][
 CHECKS["C20"]["runs"] = CHECKS["C20"]["runs"] + [
     {"name": "conc.pipeline.fmp4", "files": CLIP, "fn": "VerifH_C20_pipeline", "workers": 8, "params_quick": {"FRAGS": 3}, "params_thorough": {"FRAGS": 5},
      "reach": ["consumer-blocked", "end"], "replay_timeout": 120}]
+CHECKS["C20"]["runs"] = CHECKS["C20"]["runs"] + [
+    {"name": "run.cli.lookahead", "files": [G + "c20_lookahead.go"] + C11F, "fn": "VerifH_C20_lookahead", "workers": 16, "reach": ["quiescent", "end"], "replay_timeout": 120}]
+CHECKS["C20"]["bounds"]["quick"]["look-ahead"] = "real runTraditional, VOD playlist or live window of 6..8 listed segments (edge moving 0..2 per reload), processor takes 0..2 segments and stays busy"
+CHECKS["C20"]["bounds"]["thorough"]["look-ahead"] = "same"
 CHECKS["C20"]["bounds"]["quick"]["pipeline"] = "3 fMP4 segments x 3 fragments, the consumer blocks in the last unit of the first segment"
 # reordered frames (PTS != DTS): mediacommon's real B-frame vector, arbitrary SegmentMinDuration
 def _bf(name, variant):
